@@ -46,11 +46,17 @@ AllKindsX == AllKinds \cup {"topchoice"}
 \* rec = "tree": the root base contains a reference to the global element AlphaChild, whose anonymous type EXTENDS the
 \* root base (a child is itself a node); the element is declared last, so with derived_first the root base is first
 \* reached through a forward reference and the recursion passes through a component that is still being converted
-Space == {x \in {[depth |-> d, own |-> o, order |-> ord, loc |-> lc, homonym |-> h, user |-> u, rec |-> r] :
+\* twin # "none": the root base lives in the imported namespace AND the near namespace has a type of the same name
+\* (other members); a near type extends the near one - with the prefix t: or, the near namespace being the default one,
+\* without a prefix - before the chain's first derived type extends the imported one; the near twin is declared last
+Space == {x \in {[depth |-> d, own |-> o, order |-> ord, loc |-> lc, homonym |-> h, user |-> u, rec |-> r, twin |-> tw] :
             d \in 1..MaxDepth, o \in [1..4 -> Kinds], ord \in {"base_first", "derived_first"},
-            lc \in {"near", "far"}, h \in {"none", "before", "after"}, u \in {"none", "ref_first"}, r \in {"none", "tree"}} :
+            lc \in {"near", "far"}, h \in {"none", "before", "after"}, u \in {"none", "ref_first"}, r \in {"none", "tree"},
+            tw \in {"none", "prefixed", "default"}} :
             /\ x.user = "ref_first" => (x.homonym # "none" /\ x.own[1] = "seqattrs" /\ x.own[2] \in {"seq", "attrs"})
-            /\ x.rec = "tree" => (x.loc = "near" /\ x.homonym = "none" /\ x.user = "none" /\ x.own[1] \in {"seq", "seqattrs"})}
+            /\ x.rec = "tree" => (x.loc = "near" /\ x.homonym = "none" /\ x.user = "none" /\ x.own[1] \in {"seq", "seqattrs"})
+            /\ x.twin # "none" => (x.loc = "far" /\ x.homonym = "none" /\ x.user = "none" /\ x.rec = "none" /\ x.own[1] \in {"seq", "seqattrs"}
+                                   /\ x.own[2] \in {"seq", "empty"})}
 \* only the first depth+1 entries of `own` matter: normalise the rest
 Norm(x) == [x EXCEPT !.own = [i \in 1..4 |-> IF i <= x.depth + 1 THEN x.own[i] ELSE "empty"]]
 Cases == {Norm(x) : x \in Space}
@@ -84,9 +90,14 @@ UserType(x) == [k |-> "complex", n |-> "UserType", base |-> None,
 File1Rest(x) == (IF x.loc = "far" THEN Derived(x)
                  ELSE IF x.order = "base_first" THEN RootWithHomonym(x) \o Derived(x) ELSE Derived(x) \o RootWithHomonym(x))
                 \o (IF x.rec = "tree" THEN <<ChildElem>> ELSE <<>>)
-File1(x) == [name |-> "f1.xsd", kind |-> "xsd", tns |-> "Unear", xmlns |-> << <<"t", "Unear">>, <<"o", "Ufar">> >>,
+TwinType == [k |-> "complex", n |-> "AlphaType", base |-> None, content |-> << SeqP(1, "1", << El("twinItem", B("string"), 1, "1") >>) >>, attrs |-> <<>>]
+TwinUser(x) == [k |-> "complex", n |-> "TwinUser", base |-> T(IF x.twin = "default" THEN "" ELSE "t", "AlphaType"),
+                content |-> << SeqP(1, "1", << El("twinOwn", B("string"), 1, "1") >>) >>, attrs |-> <<>>]
+File1(x) == [name |-> "f1.xsd", kind |-> "xsd", tns |-> "Unear",
+             xmlns |-> << <<"t", "Unear">>, <<"o", "Ufar">> >> \o (IF x.twin = "default" THEN << <<"", "Unear">> >> ELSE <<>>),
              items |-> (IF x.loc = "far" THEN << [k |-> "import", ns |-> "Ufar", loc |-> "f2.xsd"] >> ELSE <<>>)
-                       \o (IF x.user = "ref_first" THEN <<UserType(x)>> ELSE <<>>) \o File1Rest(x)]
+                       \o (IF x.user = "ref_first" THEN <<UserType(x)>> ELSE <<>>)
+                       \o (IF x.twin # "none" THEN <<TwinUser(x)>> ELSE <<>>) \o File1Rest(x) \o (IF x.twin # "none" THEN <<TwinType>> ELSE <<>>)]
 File2(x) == [name |-> "f2.xsd", kind |-> "xsd", tns |-> "Ufar", xmlns |-> << <<"o", "Ufar">> >>,
              items |-> IF x.loc = "far" THEN RootWithHomonym(x) ELSE <<>>]
 SetOf(x) == [files |-> <<File1(x), File2(x)>>, start |-> "f1.xsd"]
@@ -115,6 +126,8 @@ Emit == PrintT(<<"CASE", ToJson([prop |-> "C08", drv |-> "gen", start |-> "f1.xs
 
 N(x, p, s) == [xml |-> x, pascal |-> p, snake |-> s]
 Vocab == [names |-> [UserType |-> N("UserType", "UserType", "user_type"),
+                     TwinUser |-> N("TwinUser", "TwinUser", "twin_user"), twinItem |-> N("twinItem", "TwinItem", "twin_item"),
+                     twinOwn |-> N("twinOwn", "TwinOwn", "twin_own"),
                      AlphaChild |-> N("AlphaChild", "AlphaChild", "alpha_child"),
                      childPos |-> N("childPos", "ChildPos", "child_pos"),
                      childKind |-> N("childKind", "ChildKind", "child_kind"),
